@@ -12,6 +12,7 @@ mod permissions;
 mod routes;
 mod apply_domain;
 mod status_writes;
+mod lock_sites;
 
 fn main() {
     let args: Vec<String> = std::env::args().collect();
@@ -29,6 +30,7 @@ fn main() {
         "routes" => routes::run(&repo, out),
         "apply_domain" => apply_domain::run(&repo),
         "status_writes" => status_writes::run(&repo),
+        "lock_sites" => lock_sites::run(&repo),
         t => {
             eprintln!("unknown table {t}");
             std::process::exit(2);
